@@ -384,6 +384,15 @@ func (x *Exec) staticModifies(f *ssa.Function, fc *FuncContract, m Expr, frame *
 				return
 			}
 		}
+		if e.Fun == "contents" && len(e.Args) == 1 {
+			if t := x.staticExprType(f, fc, e.Args[0]); t != nil {
+				if mt, ok := t.Underlying().(*types.Map); ok {
+					has, val, ln, _, _ := x.mapHeaps(mt)
+					frame.Names[has], frame.Names[val], frame.Names[ln] = true, true, true
+					return
+				}
+			}
+		}
 		frame.All = true
 	case *EIndex:
 		if id, ok := e.X.(*EIdent); ok {
@@ -888,6 +897,21 @@ func (x *Exec) havocModifies(st *State, ctx *EvalCtx, m Expr) {
 		st.heap[name] = x.define(st, name, Store(now, idx, x.freshConst(st, "mod."+id.Name, es)))
 		return
 	case *ECall:
+		if e.Fun == "contents" && len(e.Args) == 1 {
+			tv := ctx.eval(e.Args[0])
+			mt, ok := tv.T.Underlying().(*types.Map)
+			if tv.T == nil || !ok {
+				ctx.fail("contents() needs a map")
+			}
+			ref := ctx.termOf(tv)
+			has, val, ln, ks, vs := x.mapHeaps(mt)
+			x.heapSet(st, has, Store(x.heapGet(st, has, ArraySort(ks, SBool)), ref, x.freshConst(st, "mod.has", ArraySort(ks, SBool))))
+			x.heapSet(st, val, Store(x.heapGet(st, val, ArraySort(ks, vs)), ref, x.freshConst(st, "mod.val", ArraySort(ks, vs))))
+			nl := x.freshConst(st, "mod.len", SInt)
+			st.assume(Ge(nl, IntLit(0)), "")
+			x.heapSet(st, ln, Store(x.heapGet(st, ln, SInt), ref, nl))
+			return
+		}
 		if e.Fun == "heap" {
 			x.havocHeap(st, e.Args[0].(*EStr).V)
 			return
@@ -976,6 +1000,18 @@ func (x *Exec) frameGoals(st *State, only map[string]bool) (out []frameGoal) {
 					allowed["GV$"+id.Name] = append(allowed["GV$"+id.Name], ctx.termOf(ctx.eval(e.I)))
 				}
 			case *ECall:
+				if e.Fun == "contents" && len(e.Args) == 1 {
+					tv := ctx.eval(e.Args[0])
+					if tv.T != nil {
+						if mt, ok := tv.T.Underlying().(*types.Map); ok {
+							has, val, ln, _, _ := x.mapHeaps(mt)
+							ref := ctx.termOf(tv)
+							for _, n := range []string{has, val, ln} {
+								allowed[n] = append(allowed[n], ref)
+							}
+						}
+					}
+				}
 				if e.Fun == "heap" {
 					whole[e.Args[0].(*EStr).V] = true
 				}
